@@ -120,6 +120,23 @@ def ksLoop : List Tok → Bool → List Entry → Except IdxErr (List Entry)
 
 def ksIndex (body : List Byte) : Except IdxErr (List Entry) := ksLoop (scanLines body) false []
 
+/-- The same loop when reading the body ends with a read error (dropped connection, timeout) instead
+of a clean EOF: the scanner hands over some of the lines that arrived (`toks`: how many depends on
+how the bytes and the error were delivered), `scanner.Err()` is then non-nil, the loop stops and
+"Error scanning index response" is returned unless a line-level error came first. -/
+def ksLoopAbort : List Tok → Bool → List Entry → Except IdxErr (List Entry)
+  | [], _, _ => .error .scan
+  | .tooLong :: _, _, _ => .error .scan
+  | .line l :: rest, sawEOF, acc =>
+    if sawEOF then .error .nonTerminalBlank
+    else if l = [] then ksLoopAbort rest true acc
+    else match parseLine l with
+      | .ok e => ksLoopAbort rest false (e :: acc)
+      | .error e => .error e
+
+/-- `GetIndex` with a read error: `ioutil.ReadAll` fails, the error is returned. -/
+def getIndexAbort (_received : List Byte) : Except IdxErr (List Byte) := .error .http
+
 /-- `bytes.HasSuffix(respBody, []byte("\n\n"))` -/
 def endsWithBlank (body : List Byte) : Bool := [10, 10].isSuffixOf body
 
